@@ -3353,10 +3353,15 @@ func (t *transport) RoundTrip(hc *HostClient, req *Request, resp *Response) (ret
 				return nil
 			}
 			hc.ReleaseReader(br)
+			// The connection may be reused only if the whole body has been taken
+			// off it. Otherwise the unread rest of this response would be read
+			// as the response to the next request sent over the connection.
+			drained := true
 			if r, ok := rbs.(*requestStream); ok {
+				drained = r.drained()
 				releaseRequestStream(r)
 			}
-			if closeConn || resp.ConnectionClose() || wErr != nil {
+			if closeConn || resp.ConnectionClose() || wErr != nil || !drained {
 				hc.CloseConn(cc)
 			} else {
 				hc.ReleaseConn(cc)
